@@ -51,6 +51,9 @@
 (declare-fun secretMatches (GStr GStr) Bool)
 (declare-fun authWrapped (Int) Bool)
 (declare-fun writeAuthWrapped (Int) Bool)
+; gRPC mTLS interceptors: 0 = not one, 1 = built with unauthenticated reads allowed, 2 = built without
+(declare-fun mtlsUnary (Int) Int)
+(declare-fun mtlsStream (Int) Int)
 ; net.SplitHostPort, uninterpreted: the port it returns and whether it succeeded
 (declare-fun splitPort (GStr) GStr)
 (declare-fun splitOK (GStr) Bool)
